@@ -19,7 +19,7 @@ RULE = ("Hypothesis-generated 2D/3D plotfiles x sequences of 0-3 edits drawn fro
         "limit) x level limit. If default validation (nofail) reports good, every box of every validated level is "
         "read through pck[:][lv][b] (+ one single-field read): no error, shape = level-header index range + all "
         "fields, values = payload of the FAB located independently in the recorded file by the header naming that "
-        "range. Non-trivial = accepted AND the tree differs from the pristine one inside the validated levels.")
+        "One edit pads a FAB header line to 200-1100 bytes (later offsets moved accordingly). range. Non-trivial = accepted AND the tree differs from the pristine one inside the validated levels.")
 ASSUMPTIONS = ["independent FAB location = byte search for the header text naming the index range in the recorded binary file"]
 
 
